@@ -112,7 +112,8 @@ def extra_line(rng, sh, k):
     pool = sh.ids() or [sh.fresh(rng)]
     n = rng.randint(1, 3)
     if kind == "O":
-        pool = sh.ids(["S", "E", "O"]) or [sh.fresh(rng)]
+        # (gfapy also lets an ordered group list gaps and, although the specification does not, unordered groups)
+        pool = sh.ids(["S", "E", "O"] + (["G", "U"] if rng.random() < 0.2 else [])) or [sh.fresh(rng)]
         items = [(rng.choice(pool) if rng.random() < 0.85 else sh.fresh(rng)) + rng.choice("+-")
                  for _ in range(n)]
         nm = rng.choice(sh.ids(["O"]) + [sh.fresh(rng)] * 3) if rng.random() < 0.9 else "*"
@@ -186,9 +187,41 @@ def _bad_op(rng, sh, k, corrupt_fn=None):
              "rename_used", "rm_unknown", "set_ref_field", "bad_tagname", "empty", "blank",
              "dup_link", "grp_clash", "grp_tag_conflict", "readd_connected", "bad_value",
              "ref_clash", "ref_clash", "hdr_multi", "rename_malformed", "del_id", "placeholder_clash",
-             "invalid_then_rm"]
+             "invalid_then_rm", "self_mention", "unknown_then_clash"]
     kind = rng.choice(kinds)
     tags = gen_tags(rng, k)
+    if kind == "self_mention":
+        # a line uses its own identifier to refer to another line; with some probability a group has mentioned
+        # the identifier before (so that a placeholder of unknown type carries it)
+        x = sh.fresh(rng)
+        y = rng.choice(segs) if segs else sh.fresh(rng)
+        pre = []
+        if v == "gfa1":
+            ln = rng.choice(["L\t%s\t+\t%s\t-\t*\tID:Z:%s" % (x, y, x), "C\t%s\t+\t%s\t+\t0\t*\tID:Z:%s" % (y, x, x),
+                             "P\t%s\t%s+,%s+\t*" % (x, y, x), "P\t%s\t%s+\t*" % (x, x)])
+        else:
+            ln = rng.choice(["E\t%s\t%s+\t%s-\t0\t1\t0\t1\t*" % (x, x, y), "E\t%s\t%s+\t%s-\t0\t1\t0\t1\t*" % (x, y, x),
+                             "G\t%s\t%s+\t%s-\t10\t*" % (x, x, x), "O\t%s\t%s+ %s+" % (x, y, x), "U\t%s\t%s %s" % (x, x, y),
+                             "O\t%s\t%s-" % (x, x)])
+            if rng.random() < 0.5:
+                g = rng.choice(["O\t%s\t%s+ %s+" % (sh.fresh(rng), y, x), "U\t%s\t%s" % (sh.fresh(rng), x)])
+                sh.note(g)
+                pre = [{"op": "add", "line": g, "as": "str"}]
+        return kind, pre + [{"op": "add", "line": ln, "as": rng.choice(["str", "obj"])}]
+    if kind == "unknown_then_clash" and v == "gfa2":
+        # a group mentions x (placeholder of unknown type); then a line named x arrives whose later reference
+        # clashes with an identifier in use by a non-segment: the replacement of the placeholder fails half-way
+        nonseg = [q for q in ids if sh.named[q] != "S"]
+        if nonseg:
+            x = sh.fresh(rng)
+            y = rng.choice(segs) if segs else sh.fresh(rng)
+            bad = rng.choice(nonseg)
+            g = rng.choice(["O\t%s\t%s+ %s+" % (sh.fresh(rng), y, x), "U\t%s\t%s" % (sh.fresh(rng), x)])
+            sh.note(g)
+            ln = rng.choice(["E\t%s\t%s+\t%s+\t0\t1\t0\t1\t*" % (x, sh.fresh(rng), bad),
+                             "G\t%s\t%s-\t%s+\t10\t*" % (x, sh.fresh(rng), bad),
+                             "E\t%s\t%s+\t%s+\t0\t1\t0\t1\t*" % (x, y, bad)])
+            return kind, [{"op": "add", "line": g, "as": "str"}, {"op": "add", "line": ln, "as": rng.choice(["str", "obj"])}]
     if kind == "ref_clash":
         # the first reference is an undefined identifier (a placeholder gets created), a later one clashes
         # with an identifier in use by a line which is not a segment: the connection fails half-way
